@@ -39,6 +39,11 @@ def cases(tier, seed, prep=None):
     for i in range(60 if tier == "quick" else 2000):
         out.append({"kind": "pingtimeout", "seed": seed * 1000003 + 560000 + i, "who": "AB"[i % 2], "at": 40 + (i * 7) % 200,
                     "min_msgs": 2})
+    # an outage: the server cannot be reached at all for a while (refused connections), so the client makes many
+    # failed reconnection attempts in a row before it gets through again
+    for i in range(40 if tier == "quick" else 1200):
+        out.append({"kind": "outage", "seed": seed * 1000003 + 580000 + i, "who": "AB"[i % 2], "at": 30 + (i * 11) % 200,
+                    "seconds": [5, 30, 120, 200, 400, 900][i % 6], "min_msgs": 2})
     n_random = 300 if tier == "quick" else 10000
     for i in range(n_random):
         out.append({"kind": "random", "seed": seed * 1000003 + 500000 + i, "ndrops": [1, 2, 3, 4, 5, 6],
@@ -48,7 +53,7 @@ def cases(tier, seed, prep=None):
 
 def run_case(spec):
     sub = dict(spec)
-    if spec["kind"] == "pingtimeout":
+    if spec["kind"] in ("pingtimeout", "outage"):
         sub["kind"] = "plain"
     world, drv, sch, cfg = build_case(sub, max_msgs=8, max_size=300)
     window_sends = [0]
@@ -83,7 +88,29 @@ def run_case(spec):
         sch.hook = hook
         orig_all_sent = drv.all_sent
         drv.all_sent = lambda: orig_all_sent() and held["payload"] is None
+    outage = {"over": spec["kind"] != "outage", "attempts_before": 0}
+    if spec["kind"] == "outage":
+        from ..env import MAILBOX_PORT
+
+        def begin_outage():
+            if not drv.both_connected_once():
+                # a failure of a client's very first connection is documented as fatal: wait until both are in
+                sch.faults.append((world.step + 10, begin_outage, "outage (waiting for the first connections)"))
+                sch.faults.sort(key=lambda f: f[0])
+                return
+            addr = ("10.9.9.1", MAILBOX_PORT)
+            outage["attempts_before"] = len([x for x in world.reactor.netlog if x[0] == "refused"])
+            world.reactor.refuse.add(addr)
+            drv.drop(spec["who"])
+
+            def end_outage():
+                world.reactor.refuse.discard(addr)
+                outage["over"] = True
+            world.reactor.callLater(spec["seconds"], end_outage)
+        sch.faults.append((spec["at"], begin_outage, "outage of %d s for %s" % (spec["seconds"], spec["who"])))
     sch.run(1200, until=drv.all_delivered)
+    if spec["kind"] == "outage":
+        sch.drain(spec["seconds"] + 5.0, 40000, until=lambda: outage["over"])
     if spec["kind"] == "pingtimeout":
         # the silent link is only detected after the websocket ping timeout (30 s + 60 s)
         sch.drain(200.0, 20000, until=lambda: held["payload"] is None)
@@ -182,6 +209,7 @@ def run_case(spec):
                      "delivered": len(drv.a.msgs) + len(drv.b.msgs), "kind_" + spec["kind"]: 1,
                      "notrans_seen": len(MON.notrans), "log_errors_seen": len(MON.errors),
                      "virtual_seconds_to_complete": int(t_done), "sends_in_closing_window": window_sends[0],
+                     "refused_reconnect_attempts": (len([x for x in world.reactor.netlog if x[0] == "refused"]) - outage["attempts_before"]) if spec["kind"] == "outage" else 0,
                      **{"drop_" + k: v for k, v in drv.drop_kinds.items()}},
         "sets": {"cmds_reissued": sorted({"%s" % c.get("type") for conn in world.server_conns[2:] for c in conn.cmds})},
         "sample": {"spec": spec, "cfg": {k: v for k, v in cfg.items() if not k.startswith("plan")},
